@@ -43,13 +43,13 @@ func (d *verifLocalCert) CheckRootConstraints(signer cert.Certificate) error { r
 func (d *verifLocalCert) VerifyPrivateKey(curve cert.Curve, key []byte) error {
 	return nil
 }
-func (d *verifLocalCert) String() string                { return "" }
-func (d *verifLocalCert) Marshal() ([]byte, error)      { return nil, nil }
-func (d *verifLocalCert) MarshalPEM() ([]byte, error)   { return nil, nil }
-func (d *verifLocalCert) Fingerprint() (string, error)  { return "", nil }
-func (d *verifLocalCert) MarshalJSON() ([]byte, error)  { return nil, nil }
-func (d *verifLocalCert) Copy() cert.Certificate        { c := *d; return &c }
-func (d *verifLocalCert) MarshalPublicKey() []byte      { return nil }
+func (d *verifLocalCert) String() string               { return "" }
+func (d *verifLocalCert) Marshal() ([]byte, error)     { return nil, nil }
+func (d *verifLocalCert) MarshalPEM() ([]byte, error)  { return nil, nil }
+func (d *verifLocalCert) Fingerprint() (string, error) { return "", nil }
+func (d *verifLocalCert) MarshalJSON() ([]byte, error) { return nil, nil }
+func (d *verifLocalCert) Copy() cert.Certificate       { c := *d; return &c }
+func (d *verifLocalCert) MarshalPublicKey() []byte     { return nil }
 
 // VerifLocalCert returns a local certificate with the given version and signature bytes.
 func VerifLocalCert(version int, sig []byte) cert.Certificate {
